@@ -317,7 +317,11 @@ class Check(PropertyCheck):
                   "order of first use and whether it was reused. All cases run through the REAL default addon chain "
                   "(mitmproxy.addons.default_addons(), source order; rewrites by the real MapRemote and by a user script loaded at "
                   "ScriptLoader's place); the assumed order is regenerated into Gen/C24.lean and proved by addon_order_as_assumed.")
-    level_note = ("trusted: Lean kernel; hand model tied differentially (validated, not verified). Client replay runs through the real "
+    level_note = ("trusted: Lean kernel; hand model tied differentially (validated, not verified). 'Other modes' of the statement "
+                  "(wireguard, local redirect, dns, …) have no constructor of their own: UpstreamAuth distinguishes modes only by "
+                  "isinstance(…, UpstreamMode / ReverseMode) (decision_depends_only_on_upstream_and_reverse, "
+                  "other_modes_get_no_credential), so they are represented by `transparent` in the model; the harness drives "
+                  "regular, upstream, reverse, transparent and socks5 (the other mode layers need a tun device / UDP sockets). Client replay runs through the real "
                   "clientplayback.ReplayHandler (every running mode x recorded mode x spelling of the mode name) and is compared "
                   "with the model, except a replay in upstream mode of a flow recorded in another mode (it trips an assertion in "
                   "HttpLayer.Start and writes nothing: oracle only); cases with a refusing ProxyAuth are oracle-only. An addon rewriting http->https between requestheaders and request is driven with the real "
